@@ -11,9 +11,9 @@ case "$P" in
 esac
 cd /verif
 for id in "$@"; do
-  cp evidence/$id.json /tmp/ev-$id.$$ 2>/dev/null
-  SCODA_ROOT=$D ./check $id --tier quick | grep -E "VIOLATION|KNOWN|^C[0-9]+:|MACHINERY" | cut -c1-220 | head -8
+
+  SCODA_ROOT=$D VERIF_EVIDENCE_DIR=$D/.verif-evidence ./check $id --tier quick | grep -E "VIOLATION|KNOWN|^C[0-9]+:|MACHINERY" | cut -c1-220 | head -8
   echo "exit=$?"
-  mv /tmp/ev-$id.$$ evidence/$id.json 2>/dev/null
+
 done
 git -C /repo worktree remove --force "$D"; rm -rf "$D"
